@@ -742,7 +742,7 @@ template<class Policy>
 void Engine<Policy>::op(const std::vector<std::string>& tok) {
     const auto& cmd = tok[0];
     if (cmd == "static") {
-        g_obj_static_id = toid(tok.at(1));
+        g_obj_static_id = rawid(tok.at(1)) == 0 ? static_cast<type_id>(-2) : toid(tok.at(1));
     } else if (cmd == "budget") {
 #ifdef YOMM2_VERIF
         yorel::yomm2::verif::hash_attempt_budget = std::stoull(tok.at(1));
